@@ -3404,7 +3404,18 @@ struct VWorld
         else if (how == 1)
           dst.template emplace<T>(val.iv);
         else if (how == 2)
-          dst = T(val.iv);
+        {
+          if (val.iv & 1)
+          {
+            // converting assignment from an LVALUE: the variant itself copy-constructs the alternative, which may
+            // throw (arm_copy).  The alternative moves without throwing, so a temporary is built first and the old
+            // value survives a throwing copy - as with std::variant (seeded C20-m9 destroyed the old value first)
+            T tmp(val.iv);
+            dst = tmp;
+          }
+          else
+            dst = T(val.iv);
+        }
         else
           dst = V(T(val.iv));
         break;
@@ -3748,6 +3759,8 @@ VH_TARGET(var_ops, 3,
       if (op.kind == V_GET && rd.chance(50) && !ws.v[op.i].valueless_by_exception())
         op.probe = static_cast<int>(ws.v[op.i].index());
       op.arm = (op.kind == V_COPY_ASSIGN || op.kind == V_COPY_CONSTRUCT) && ws.v[op.j].index() == 3 && rd.chance(25);
+      if (op.kind == V_ASSIGN_VALUE && op.val.alt == 3 && op.val.iv >= 0 && (op.val.iv & 1) && rd.chance(50))
+        op.arm = true;  // the copy made inside the converting assignment throws
       const auto &si = ws.v[op.i], &sj = ws.v[op.j];  // the std side is the reference for the tags
       bool i_heavy = si.index() == 2 || si.index() == 3;
       std::ostringstream d;
